@@ -51,7 +51,7 @@ mut("D_not_nondimensionalised", MI, "                strain_rate=strain_rate / s
 mut("absolute_first_step", MI, 'first_step=kwargs.pop("first_step", np.abs(time_end - time_start) * 1e-1),', 'first_step=kwargs.pop("first_step", min(1e-1, np.abs(time_end - time_start))),', ["C05"], "may be invisible: the solver adapts the step (informational)")
 mut("nondimensionalise_by_D02", MI, "strain_rate_max = np.abs(la.eigvalsh(strain_rate)).max()", "strain_rate_max = max(np.abs(strain_rate[0, 2]), 1e-3)", ["C04", "C05"])
 mut("phase_fraction_index0", MI, '                volume_fraction = params["phase_fractions"][\n                    params["phase_assemblage"].index(self.phase)\n                ]', '                volume_fraction = params["phase_fractions"][0]', ["C08"])
-mut("gbs_reference_prev_solver_step", MI, "                self.orientations[-1],\n                self.n_grains,\n            )\n            solver.y[9:]", "                _utils.extract_vars(solver.y_old, self.n_grains)[1] if getattr(solver, 'y_old', None) is not None else self.orientations[-1],\n                self.n_grains,\n            )\n            solver.y[9:]", ["C09"])
+mut("gbs_reference_is_current_step", MI, "                self.orientations[-1],\n                self.n_grains,\n            )\n            solver.y[9:]", "                orientations.copy(),\n                self.n_grains,\n            )\n            solver.y[9:]", ["C09"])
 mut("voigt_no_transpose", MI, "mineral.orientations[i][n, ...].transpose(),", "mineral.orientations[i][n, ...],", ["C10"])
 mut("voigt_last_snapshot_only", MI, "    for i in range(n_steps):\n        for mineral in minerals:", "    for i in range(n_steps - 1, n_steps):\n        for mineral in minerals:", ["C10"])
 mut("save_meta_order", MI, "[self.phase, self.fabric, self.regime], dtype=np.uint8", "[self.fabric, self.phase, self.regime], dtype=np.uint8", ["C17"])
@@ -68,7 +68,7 @@ mut("mindices_imap_unordered", D, "            for i, out in enumerate(pool.imap
 mut("mindices_default_pool_unordered", D, "            for i, out in enumerate(pool.imap(_run, orientation_stack)):\n                m_indices[i] = out\n    else:", "            for i, out in enumerate(pool.imap_unordered(_run, orientation_stack)):\n                m_indices[i] = out\n    else:", ["C14"])
 mut("mindex_no_half", D, "return (θmax / (2 * len(misorientations_count))) * np.sum(", "return (θmax / (len(misorientations_count))) * np.sum(", ["C14"])
 mut("hist_density_false", S, "range=(0, θmax), density=True)", "range=(0, θmax), density=False)", ["C14"])
-mut("finite_strain_FtF", D, "B_λ, B_v = la.eigh(deformation_gradient @ deformation_gradient.transpose())", "B_λ, B_v = la.eigh(deformation_gradient.transpose() @ deformation_gradient)", ["C13"])
+mut("finite_strain_FtF", D, "        deformation_gradient @ deformation_gradient.transpose(),", "        deformation_gradient.transpose() @ deformation_gradient,", ["C13"])
 mut("resample_uniform", S, 'count_less = np.searchsorted(cumfrac, rng.random(n_samples), side="right")', "count_less = rng.integers(0, len(cumfrac), n_samples)", ["C15"])
 
 
